@@ -88,7 +88,9 @@ Leaves == <<
    Leaf("str_fmt_datetime", "str", <<StrT, kw("format", "\"date-time\"")>>),
    Leaf("str_fmt_byte", "str", <<StrT, kw("format", "\"byte\"")>>),
    Leaf("str_fmt_binary", "str", <<StrT, kw("format", "\"binary\"")>>),
-   Leaf("str_fmt_email_uuid", "str", <<StrT, kw("format", "\"email\""), kw("minLength", "3")>>),
+   Leaf("str_fmt_email", "str", <<StrT, kw("format", "\"email\""), kw("minLength", "3")>>),
+   Leaf("str_fmt_ipv4", "str", <<StrT, kw("format", "\"ipv4\"")>>),
+   Leaf("str_fmt_uuid", "str", <<StrT, kw("format", "\"uuid\"")>>),
    Leaf("str_enum_dups", "str", <<StrT, kw("enum", "[\"a\", \"a\", \"\"]")>>),
    Leaf("str_enum_empty", "str", <<StrT, kw("enum", "[]")>>),
    Leaf("str_nullable_default", "str", <<StrT, kw("nullable", "true"), kw("default", "\"d\"")>>),
@@ -176,7 +178,9 @@ DocMods == <<
 (* option sets of ValidateRequest / ValidateResponse (openapi3filter.Options) *)
 Opts == <<"multi", "exclude_request_body", "exclude_query", "exclude_response_body", "exclude_readonly", "exclude_writeonly",
           "include_response_status", "skip_defaults", "regex_compiler_failing", "regex_compiler_panicking_matcher_free", "custom_schema_error",
-          "no_auth_func", "nil_options", "multi_include_status_skip_defaults", "all_excludes">>
+          "no_auth_func", "nil_options", "multi_include_status_skip_defaults", "all_excludes",
+          (* process-wide settings of package openapi3 (restored after the case) *)
+          "schema_error_details_disabled", "formats_defined">>
 
 ---------------------------------------------------------------------------
 (* TRAFFIC MUTATIONS, by part.  The first three partition ReqMutations of RobustAtoms and add to it; the last two do the same for RespMutations. *)
